@@ -101,6 +101,29 @@ def muxing_entries(cx):
     return sorted(out)
 
 
+def convenience_clock_rule(prog, run, rule):
+    """automatic-timestamp writes == explicit timestamps at the same tick values: the running position the convenience methods keep
+    must advance exactly once per *accepted* frame - a store to it on a path that ends in a rejection shifts every later automatic
+    timestamp, which an explicit caller (who knows the frame was refused) would not do.  The clock fields are found, not named: the
+    receiver fields the `encode_*` methods store to directly.  C05.R1 instances restricted to those fields."""
+    from . import c05
+    run.rule(rule, "convenience clocks advance only with accepted frames: the running-position fields of the automatic-timestamp methods are never stored on a path that ends in a rejection (C05.R1 instances for those fields)")
+    try:
+        cx = common.Ctx(prog)
+    except AnchorMissing as e:
+        run.bad(rule, "anchor", "anchor missing: %s" % e)
+        return
+    clocks = set()
+    for p in cx.live:
+        if mir.norm(p).split("::")[-1] in ("encode_video", "encode_audio") and mir.norm(p).startswith("api::Muxer"):
+            for (bb, i, (root, path), why, node) in cx.st.sites[p]:
+                if why.startswith("assign") and root == ("arg", 1) and len(path) == 1:
+                    clocks.add(path[0])
+    run.check(len(clocks) >= 2, rule, "clock fields", "running positions kept by the convenience methods: %s" % sorted(clocks),
+              "the automatic-timestamp methods store to fewer than two receiver fields (anchor; fail closed): %s" % sorted(clocks), how="count")
+    c05.purity_rule(prog, run, rule, only=lambda store: str(store).split(".")[0] in clocks)
+
+
 def check(prog, run):
     run.rule("R6", "equivalent routes to one attribute agree: every API setter of title / language / creation time stores the parameter itself (C18.R5 instances)")
     from . import c18
@@ -110,6 +133,7 @@ def check(prog, run):
     run.rule("R3", "the generic sink is used only through std::io::Write (no TypeId/Any/downcast on it)")
     run.rule("R4", "auto traits for all W: Send if W: Send, Sync if W: Sync (and not unconditionally); FragmentedMuxer: Send + Sync")
     run.rule("R5", "equivalent API paths: finish family are single delegations; builder aliases have alpha-equal bodies (or delegate); codec None configures no audio")
+    convenience_clock_rule(prog, run, "R7")
     try:
         cx = common.Ctx(prog)
     except AnchorMissing as e:
